@@ -8,6 +8,7 @@ mod c07;
 mod c10;
 mod c11;
 mod c13;
+mod c14;
 mod refcodec;
 mod refvmess;
 mod ssudp;
@@ -32,6 +33,7 @@ fn main() {
         "c07-garbage" => c07::garbage(rest),
         "c10-replay" => c10::replay(rest),
         "c10-record" => c10::record(rest),
+        "c14-replay" => c14::replay(rest),
         "c13-grammar" => c13::grammar(rest),
         "c13-local" => c13::local(rest),
         "c11-replay" => c11::replay(rest),
